@@ -461,3 +461,7 @@ fn debug_assert_nones(ptr: NonNull<CcBox<()>>) {
         debug_assert!((*ptr.as_ref().get_prev()).is_none());
     }
 }
+
+#[cfg(kani)]
+#[path = "/verif/kani/lists_proofs.rs"]
+pub(crate) mod verif_proofs; // verification hook (H2): specs and contract harnesses live in /verif
